@@ -269,6 +269,11 @@ func Alphabet() []AtomDef {
 		return maskEq(r.CHost, ip("0.0.0.1"), -1, 8) || maskEq(r.SHost, ip("0.0.0.1"), -1, 8)
 	})
 	add(false, "chost:@shost@/24", G("host"), func(r *Rec) bool { return maskEq(r.CHost, r.SHost, 24, -1) })
+	// value lists that mix the address families (no explicit mask)
+	add(false, "chost:10.0.0.1,fe80::1", G("host"), func(r *Rec) bool { return bytes.Equal(r.CHost, hostsV4[0]) || bytes.Equal(r.CHost, hostsV6[0]) })
+	add(false, "host:fe80::2,10.0.0.2", G("host"), func(r *Rec) bool {
+		return bytes.Equal(r.CHost, hostsV6[1]) || bytes.Equal(r.SHost, hostsV6[1]) || bytes.Equal(r.CHost, hostsV4[1]) || bytes.Equal(r.SHost, hostsV4[1])
+	})
 	// protocol
 	add(true, "protocol:tcp", G("proto"), func(r *Rec) bool { return r.Proto == ProtoTCP })
 	add(false, "protocol:udp", G("proto"), func(r *Rec) bool { return r.Proto == ProtoUDP })
